@@ -406,6 +406,21 @@ def run_case(ctx, case):
                     ctx.count('nav.children-first.%s' % which)
         except Exception as e:  # noqa
             ctx.fail_exc('nav|children-first', e, case)
+    # a fourth fresh object: the LAST unit is fetched by offset first (what a consumer of .debug_aranges / .debug_pubnames does), so that the
+    # unit cache is sparse; the earlier units are then walked lazily and their references followed - also those into skipped units
+    if case.get('fresh_nav', True) and len(w.exp['units']) >= 3:
+        try:
+            di7 = D.make_dwarfinfo(secs, case['le'], case.get('default_addr', 4))
+            eus = w.exp['units']
+            di7.get_CU_at(eus[-1]['offset'])
+            for eu in eus[:-1]:
+                cu = di7.get_CU_at(eu['offset'])
+                dies = list(cu.iter_DIEs())
+                if len(dies) == len(eu['recs']):
+                    _navigation(ctx, 'units', di7, cu, dies, eu['recs'], w, case, 'units')
+            ctx.count('nav.sparse-unit-cache')
+        except Exception as e:  # noqa
+            ctx.fail_exc('nav|sparse-unit-cache', e, case)
     units = case['units']
     mixed = len({(u['version'], u['fmt'], u['addr_size']) for u in units}) > 1
     nt = mixed or (total_dies >= 3 and len({f for f in feats if f.startswith('DW_FORM')}) >= 4 and bool(feats & SPECIAL))
